@@ -69,12 +69,26 @@ pub struct PCA<T: RealNumber, M: Matrix<T>> {
 impl<T: RealNumber, M: Matrix<T>> PartialEq for PCA<T, M> {
     fn eq(&self, other: &Self) -> bool {
         if self.eigenvectors != other.eigenvectors
+            || self.projection != other.projection
             || self.eigenvalues.len() != other.eigenvalues.len()
+            || self.mu.len() != other.mu.len()
+            || self.pmu.len() != other.pmu.len()
         {
             false
         } else {
             for i in 0..self.eigenvalues.len() {
                 if (self.eigenvalues[i] - other.eigenvalues[i]).abs() > T::epsilon() {
+                    return false;
+                }
+            }
+            // the centre and its projection are what `transform` applies: two models that centre differently differ
+            for i in 0..self.mu.len() {
+                if (self.mu[i] - other.mu[i]).abs() > T::epsilon() {
+                    return false;
+                }
+            }
+            for i in 0..self.pmu.len() {
+                if (self.pmu[i] - other.pmu[i]).abs() > T::epsilon() {
                     return false;
                 }
             }
